@@ -115,6 +115,7 @@ PROPS = {
     },
     "C11": {
         "units": ["value"],
+        "exclude_functions": {"value": ["Finalizer1::convert_witness", "Finalizer2::convert_witness", "DecodeFinalizer::convert_witness"]},
         "kani": {"quick": ["s07_usize_div_ceil_8"], "thorough": []},
         "level": "proof",
         "level_text": "Unbounded deductive proof (Verus) on the real impls of PartialEq / Ord / Hash for Value: eq returns true exactly when the two "
@@ -136,6 +137,7 @@ PROPS = {
     },
     "C10": {
         "units": ["value"],
+        "exclude_functions": {"value": ["Finalizer1::convert_witness", "Finalizer2::convert_witness", "DecodeFinalizer::convert_witness"]},
         "kani": {"quick": ["s07_usize_div_ceil_8"], "thorough": []},
         "level": "proof",
         "level_text": "Unbounded deductive proof (Verus), per function, on the real value code: padded length = type width; copy_bits / right_shift_1 / "
